@@ -65,6 +65,12 @@ def has_unknown_executor_twin(ast):
     return bool(bad & good)
 
 
+def has_multi_element_set(n):
+    if isinstance(n, list) and n and n[0] == "cont" and n[1] == "set" and len(n[2]) >= 2:
+        return True
+    return any(has_multi_element_set(c) for c in wf.children(n)) if isinstance(n, list) and n and isinstance(n[0], str) else False
+
+
 def with_r1(ast):
     def fn(c):
         c[4] = dict(c[4], limits=["r1"])
@@ -170,6 +176,11 @@ def shard(ctx, n, sub, n_sched):
             try:
                 wf.expected_outcomes(ast)
             except wf.RefTooBig:
+                continue
+            if has_multi_element_set(ast):
+                # hashes of values holding a set of >=2 elements below the top level are not canonical (open C16/C20
+                # finding); they differ between any two runs, whatever the schedule
+                ctx.count("programs_with_sets_skipped")
                 continue
             ctx.count("plain_programs")
             run_program(ctx, rnd, ast, False, shape, n_sched, where)
